@@ -10,6 +10,37 @@ Open Scope Q_scope.
 Definition rtol7 : Q := 1 # 10000000.
 Definition rtol9 : Q := 1 # 1000000000.
 
+(* ---- IEEE doubles as far as the screening of cholesky_band needs them: finite values are exact rationals *)
+Inductive xq := XFin (q : Q) | XPInf | XNInf | XNaN.
+(* IEEE a <= b: false as soon as a NaN is involved *)
+Definition xle (a b : xq) : bool :=
+  match a, b with
+  | XNaN, _ => false
+  | _, XNaN => false
+  | XNInf, _ => true
+  | _, XPInf => true
+  | XPInf, _ => false
+  | XFin _, XNInf => false
+  | XFin p, XFin q => Qle_bool p q
+  end.
+Definition xfinite (a : xq) : bool := match a with XFin _ => true | _ => false end.
+
+(* What fit() must return when cholesky_band's screening fires, in IEEE arithmetic: the columns reported are those whose diagonal
+   entry compares <= mininf (possibly NONE when the band is non-finite without such an entry: NaN never compares); the status is
+   what maskpoints makes of that list -- for the empty list: -2 and an unchanged breakpoint mask.  None = the screening does not
+   fire (finite band, no diagonal entry <= mininf): the factorisation is attempted (CFit / CStatus are about that). *)
+Definition screen_status_model (bmask : list bool) (k : nat) (diag : list xq) (mininf : xq) (allfinite : bool)
+  : option (Z * list bool) :=
+  let nn := length (filter (fun b => b) (skipn k bmask)) in
+  if (nn <? k)%nat then Some ((-2)%Z, bmask)
+  else
+    let bad := filter (fun j => xle (nth j diag XNaN) mininf) (seq 0 (length diag)) in
+    if negb (length bad =? 0)%nat || negb allfinite then
+      let good := good_positions bmask 0 in
+      let '(st, targets) := maskpoints_model (length good) k bad in
+      Some (st, mask_positions good targets bmask)
+    else None.
+
 Inductive case :=
   (* well-supported fit on sorted data: gb = good knots, observed (status, coeff, yfit) and the banded
      matrix alpha handed to cholesky_band *)
@@ -17,7 +48,10 @@ Inductive case :=
   (* cholesky_band returned (-1, L) on the band matrix ab (n = size), cholesky_solve(L, b) returned x *)
 | CChol (ab L : list (list Q)) (n : nat) (x b : list Q)
   (* ill-posed fit caught by the diagonal screening: observed status and breakpoint mask after fit() *)
-| CStatus (bk : list Q) (bmask : list bool) (k : nat) (xs ws : list Q) (mininf : Q) (status : Z) (newmask : list bool).
+| CStatus (bk : list Q) (bmask : list bool) (k : nat) (xs ws : list Q) (mininf : Q) (status : Z) (newmask : list bool)
+  (* a fit whose normal equations are NOT finite (NaN / +-inf in invvar or xdata): diag = the IEEE diagonal alpha[0, 0:n] handed to
+     cholesky_band, mininf its IEEE threshold, allfinite = whether the whole band is finite; observed status and breakpoint mask *)
+| CNonFin (bmask : list bool) (k : nat) (diag : list xq) (mininf : xq) (allfinite : bool) (status : Z) (newmask : list bool).
 
 Definition diag_of (m : nat) (D : list obs) : list Q :=
   map (fun j => nthQ (Avec m D (unit m j)) j) (seq 0 m).
@@ -54,6 +88,20 @@ Definition run_case (c : case) : Z :=
       let D := fit_obs gb k xs (map (fun _ => 0) xs) ws in
       let '(st, nm) := fit_status_model bmask k (diag_of m D) mininf in
       (if Z.eqb st status && all2 Bool.eqb nm newmask then 0 else 1)%Z
+  | CNonFin bmask k diag mininf allfinite status newmask =>
+      (* specification (the property itself): a non-finite band is a failed factorisation -- the status is -1 or -2, and -1 only
+         together with a breakpoint mask that lost at least one breakpoint and gained none *)
+      let nonfinite := negb allfinite || negb (xfinite mininf) in
+      let lost := existsb (fun p => fst p && negb (snd p)) (combine bmask newmask) in
+      let gained := existsb (fun p => negb (fst p) && snd p) (combine bmask newmask) in
+      let s_ok := negb nonfinite ||
+                  ((length newmask =? length bmask)%nat && negb gained &&
+                   ((Z.eqb status (-2) && negb lost) || (Z.eqb status (-1) && lost))) in
+      let m_ok := match screen_status_model bmask k diag mininf allfinite with
+                  | Some (st, nm) => Z.eqb st status && all2 Bool.eqb nm newmask
+                  | None => true
+                  end in
+      ((if m_ok then 0 else 1) + (if s_ok then 0 else 2))%Z
   end.
 
 Definition run_cases : list case -> list Z := map run_case.
@@ -76,4 +124,9 @@ Definition diagnose (c : case) : list bool :=
       let D := fit_obs gb k xs (map (fun _ => 0) xs) ws in
       let '(st, nm) := fit_status_model bmask k (diag_of m D) mininf in
       [Z.eqb st status; all2 Bool.eqb nm newmask]
+  | CNonFin bmask k diag mininf allfinite status newmask =>
+      match screen_status_model bmask k diag mininf allfinite with
+      | Some (st, nm) => [true; Z.eqb st status; all2 Bool.eqb nm newmask]
+      | None => [false]
+      end
   end.
